@@ -222,10 +222,11 @@ theorem plan_closed_traceql (c : TraceQL.Ctx) (hc : TraceQL.CtxOK c) (script : T
   ⟨closed_fragments_partial _ hw, render_structure_invariant_sel _ hw⟩
 
 /-- … the tag-names request (`PlanTagsV2`) -/
-theorem plan_closed_traceql_tags (c : TraceQL.Ctx) (hc : TraceQL.CtxOK c) (script : TraceQL.Script) (X : Sel)
-    (h : TraceQL.planTags c script = .ok X) :
+theorem plan_closed_traceql_tags (c : TraceQL.Ctx) (hc : TraceQL.CtxOK c) (kvTable : String)
+    (hkv : rawE (b kvTable) = true) (script : TraceQL.Script) (X : Sel)
+    (h : TraceQL.planTags c kvTable script = .ok X) :
     safeSegs .normal (segsSel X) = true ∧ kinds (renderSel X) = kinds (renderSegs ((segsSel X).map Seg.shape)) :=
-  have hw := TraceQL.wf_planTags c hc script X h
+  have hw := TraceQL.wf_planTags c hc kvTable hkv script X h
   ⟨closed_fragments_partial _ hw, render_structure_invariant_sel _ hw⟩
 
 /-- … the tag-values request (`PlanValuesV2`): the requested tag `key` is ANY byte string (a leaf) -/
@@ -256,18 +257,18 @@ theorem leaf_single_literal (pre post : List Seg) (s : Bytes) (h : safeSegs .nor
     (`render = renderSegs segs`) that is well formed for its leaves, so label names, values and (anchored) regular
     expressions sit in single literals and the token structure does not depend on them. The operators come from the
     regenerated tables `Gen.PromSelect`; their closedness is decided over the tables. -/
-theorem fpquery_closed (table : String) (fromDate : Bytes) (tp : Int) (ms : List Prom.Matcher) (q : Prom.FpQuery)
-    (ht : rawE (Prom.ascii table) = true) (h : Prom.fingerprintsQuery table fromDate tp ms = some q) :
+theorem fpquery_closed (full : Bytes → Bytes → Bool) (table : String) (fromDate : Bytes) (tp : Int) (ms : List Prom.Matcher)
+    (q : Prom.FpQuery) (ht : rawE (Prom.ascii table) = true) (h : Prom.fingerprintsQuery full table fromDate tp ms = some q) :
     renderSegs q.segs = q.render ∧ safeSegs .normal q.segs = true ∧
     kinds q.render = kinds (renderSegs (q.segs.map Seg.shape)) := by
   have hq : q.table = table ∧ ∀ c ∈ q.conds, c.wf = true := by
     unfold Prom.fingerprintsQuery at h
-    cases hc : Prom.condsOf ms with
+    cases hc : Prom.condsOf (ms.map (Prom.asked full)) with
     | none => simp [hc] at h
     | some cs =>
       simp [hc] at h
       subst h
-      exact ⟨rfl, Prom.condsOf_wf ms cs hc⟩
+      exact ⟨rfl, Prom.condsOf_wf _ cs hc⟩
   have hs := ((Prom.FpQuery.closed q (by rw [hq.1]; exact ht) hq.2) .normal rfl).1
   refine ⟨Prom.FpQuery.render_segs q, hs, ?_⟩
   rw [← Prom.FpQuery.render_segs q]
@@ -282,11 +283,11 @@ theorem scan_closed (f t : Int) :
     selector list the planner accepts — pseudo-labels (field expressions from `Gen.ProfSelect`, decided closed over the
     table) and ordinary labels alike — the text is a segment list well formed for its leaves: label names, values,
     regular expressions and the date bounds sit in single literals. -/
-theorem pquery_closed (table : String) (fromDate toDate : Bytes) (ss : List Prof.Selector) (q : Prof.PQuery)
-    (ht : rawE (Prom.ascii table) = true) (h : Prof.plan table fromDate toDate ss = some q) :
+theorem pquery_closed (gre : Bytes → Bytes → Bool) (table : String) (fromDate toDate : Bytes) (ss : List Prof.Selector)
+    (q : Prof.PQuery) (ht : rawE (Prom.ascii table) = true) (h : Prof.plan gre table fromDate toDate ss = some q) :
     renderSegs q.segs = q.render ∧ safeSegs .normal q.segs = true ∧
     kinds q.render = kinds (renderSegs (q.segs.map Seg.shape)) := by
-  have hq := Prof.plan_wf table fromDate toDate ss q h
+  have hq := Prof.plan_wf gre table fromDate toDate ss q h
   have hs := ((Prof.PQuery.closed q (by rw [hq.1]; exact ht) hq.2.1 hq.2.2) .normal rfl).1
   refine ⟨Prof.PQuery.render_segs q, hs, ?_⟩
   rw [← Prof.PQuery.render_segs q]
@@ -303,25 +304,30 @@ theorem same_shape_same_structure (s1 s2 : Sel) (h1 : wfSel s1 = true) (h2 : wfS
     kinds (renderSel s1) = kinds (renderSel s2) := by
   rw [render_structure_invariant_sel s1 h1, render_structure_invariant_sel s2 h2, hs]
 
-/-- **fpquery_two_requests.** Two PromQL matcher lists with the same match types position by position — ANY label
-    names, values, regular expressions, and any date bound — planned in the same context give statements with the same
-    token structure: `skeleton (render (plan q₁)) = skeleton (render (plan q₂))`. -/
-theorem fpquery_two_requests (table : String) (d1 d2 : Bytes) (tp : Int) (ms1 ms2 : List Prom.Matcher)
+/-- **fpquery_two_requests.** Two PromQL matcher lists with the same match types position by position and the same
+    positions accepting the empty value (such a matcher is asked inverted, with its bit not required — that is part of the
+    shape) — ANY label names, values, regular expressions, and any date bound — planned in the same context give
+    statements with the same token structure: `skeleton (render (plan q₁)) = skeleton (render (plan q₂))`. -/
+theorem fpquery_two_requests (f1 f2 : Bytes → Bytes → Bool) (table : String) (d1 d2 : Bytes) (tp : Int)
+    (ms1 ms2 : List Prom.Matcher)
     (q1 q2 : Prom.FpQuery) (ht : rawE (Prom.ascii table) = true) (hty : ms1.map (·.type) = ms2.map (·.type))
-    (h1 : Prom.fingerprintsQuery table d1 tp ms1 = some q1) (h2 : Prom.fingerprintsQuery table d2 tp ms2 = some q2) :
+    (hacc : ms1.map (Prom.acceptsEmpty f1) = ms2.map (Prom.acceptsEmpty f2))
+    (h1 : Prom.fingerprintsQuery f1 table d1 tp ms1 = some q1) (h2 : Prom.fingerprintsQuery f2 table d2 tp ms2 = some q2) :
     kinds q1.render = kinds q2.render := by
-  rw [(fpquery_closed table d1 tp ms1 q1 ht h1).2.2, (fpquery_closed table d2 tp ms2 q2 ht h2).2.2,
-    Prom.fpQuery_same_shape table d1 d2 tp ms1 ms2 q1 q2 hty h1 h2]
+  rw [(fpquery_closed f1 table d1 tp ms1 q1 ht h1).2.2, (fpquery_closed f2 table d2 tp ms2 q2 ht h2).2.2,
+    Prom.fpQuery_same_shape f1 f2 table d1 d2 tp ms1 ms2 q1 q2 hty hacc h1 h2]
 
 /-- **pquery_two_requests.** Two profile selector lists that agree position by position in operator and in the class of
-    the label name (the same pseudo-label, or both ordinary labels — an ordinary label NAME is a leaf) give statements
-    with the same token structure, whatever the names, values, regular expressions and date bounds are. -/
-theorem pquery_two_requests (table : String) (f1 t1 f2 t2 : Bytes) (ss1 ss2 : List Prof.Selector) (q1 q2 : Prof.PQuery)
-    (ht : rawE (Prom.ascii table) = true) (hc : Prof.SameClasses ss1 ss2)
-    (h1 : Prof.plan table f1 t1 ss1 = some q1) (h2 : Prof.plan table f2 t2 ss2 = some q2) :
+    the label name (the same pseudo-label, or both ordinary labels — an ordinary label NAME is a leaf) and in accepting
+    the empty value give statements with the same token structure, whatever the names, values, regular expressions and
+    date bounds are. -/
+theorem pquery_two_requests (g1 g2 : Bytes → Bytes → Bool) (table : String) (f1 t1 f2 t2 : Bytes)
+    (ss1 ss2 : List Prof.Selector) (q1 q2 : Prof.PQuery)
+    (ht : rawE (Prom.ascii table) = true) (hc : Prof.SameClasses g1 g2 ss1 ss2)
+    (h1 : Prof.plan g1 table f1 t1 ss1 = some q1) (h2 : Prof.plan g2 table f2 t2 ss2 = some q2) :
     kinds q1.render = kinds q2.render := by
-  rw [(pquery_closed table f1 t1 ss1 q1 ht h1).2.2, (pquery_closed table f2 t2 ss2 q2 ht h2).2.2,
-    Prof.pquery_same_shape table f1 t1 f2 t2 ss1 ss2 q1 q2 hc h1 h2]
+  rw [(pquery_closed g1 table f1 t1 ss1 q1 ht h1).2.2, (pquery_closed g2 table f2 t2 ss2 q2 ht h2).2.2,
+    Prof.pquery_same_shape g1 g2 table f1 t1 f2 t2 ss1 ss2 q1 q2 hc h1 h2]
 
 /-! ## The parameters of `| json label="path"` -/
 
@@ -653,10 +659,10 @@ example : (match TraceQL.planValues exTCtx "tempo_traces_kv" [39, 92] (exScript.
   decide +kernel
 
 -- `fpquery_closed` / `pquery_closed`: accepted matcher / selector lists with hostile names and values
-example : ∃ q, Prom.fingerprintsQuery "time_series_gin" [50] 2
+example : ∃ q, Prom.fingerprintsQuery (fun _ _ => false) "time_series_gin" [50] 2
     [⟨[39, 45, 45], .eq, [92, 39]⟩, ⟨[97], .nre, [39, 41, 59]⟩] = some q := ⟨_, rfl⟩
 example : rawE (Prom.ascii "`qryn`.profiles_series_gin_dist") = true := by decide +kernel
-example : (Prof.plan "profiles_series_gin" [50] [51]
+example : (Prof.plan (fun _ _ => false) "profiles_series_gin" [50] [51]
     [⟨[95, 95, 110, 97, 109, 101, 95, 95], .eq, [39]⟩, ⟨[39, 92], .re, [47, 42]⟩]).isSome = true := by decide +kernel
 -- `json_params_closed`: a field name that begins with a digit and closes a call
 example := json_params_closed [([120], [.key [48, 39, 41, 32, 45, 45], .key [97], .idx 1]), ([121], [])]
